@@ -255,3 +255,97 @@ func runKT2(c *core.Ctx) {
 		c.Undecided("word-size-selectors", token.NoPos, "no selector found")
 	}
 }
+
+// KT3: width of the zero test chosen per kind. `omitempty` compiles to OP_is_zero_N, which tests
+// N bytes. Under a clause for reflect kinds K1..Kn the N must be the size of every Ki: a uint16
+// tested with OP_is_zero_1 is "empty" whenever its low byte is zero (0x0100 is dropped).
+
+func init() {
+	register(&core.Rule{ID: "KT3", Min: 8, Arm64: true,
+		Doc: "Zero-test width per kind: in every case clause over reflect.Kind constants (one or several kinds) of the IR compilers whose body names an opcode OP_is_zero_N, N equals the byte size of each kind listed (Bool/Int8/Uint8 = 1, Int16/Uint16 = 2, Int32/Uint32/Float32 = 4, Int64/Uint64/Float64 = 8); word-sized kinds (Int, Uint, Uintptr) must not use a fixed N.",
+		Run: runKT3})
+}
+
+var kindBytes = map[string]int{"Bool": 1, "Int8": 1, "Uint8": 1, "Int16": 2, "Uint16": 2, "Int32": 4, "Uint32": 4, "Float32": 4, "Int64": 8, "Uint64": 8, "Float64": 8}
+
+func runKT3(c *core.Ctx) {
+	p := c.Prog
+	n := 0
+	for _, rel := range []string{"internal/encoder", "internal/encoder/ir", "internal/decoder/jitdec"} {
+		pk := p.Pkg(rel)
+		if pk == nil {
+			continue
+		}
+		for _, fd := range core.FuncDecls(pk) {
+			if fd.Body == nil {
+				continue
+			}
+			fn := core.FuncName(pk, fd)
+			ast.Inspect(fd.Body, func(nd ast.Node) bool {
+				cc, ok := nd.(*ast.CaseClause)
+				if !ok || len(cc.List) == 0 {
+					return true
+				}
+				var kinds []string
+				for _, e := range cc.List {
+					k, ok := p.ExprObj(e).(*types.Const)
+					if !ok || k.Pkg() == nil || k.Pkg().Path() != "reflect" {
+						return true
+					}
+					kinds = append(kinds, k.Name())
+				}
+				widths := map[int]token.Pos{}
+				for _, st := range cc.Body {
+					ast.Inspect(st, func(x ast.Node) bool {
+						if _, nested := x.(*ast.CaseClause); nested {
+							return false
+						}
+						var nm string
+						switch y := x.(type) {
+						case *ast.Ident:
+							nm = y.Name
+						case *ast.SelectorExpr:
+							nm = y.Sel.Name
+						default:
+							return true
+						}
+						if i := strings.Index(nm, "OP_is_zero_"); i >= 0 {
+							if w, err := strconv.Atoi(nm[i+len("OP_is_zero_"):]); err == nil {
+								widths[w] = x.Pos()
+							}
+						}
+						return true
+					})
+				}
+				if len(widths) == 0 {
+					return true
+				}
+				n++
+				c.Analysed(fn)
+				cn := fn + "/zero-width/case " + strings.Join(kinds, ",")
+				bad := ""
+				var badPos token.Pos
+				for w, pos := range widths {
+					for _, k := range kinds {
+						kb, sized := kindBytes[k]
+						switch {
+						case !sized && (k == "Int" || k == "Uint" || k == "Uintptr"):
+							bad, badPos = "reflect."+k+" is word-sized but is tested with the fixed width OP_is_zero_"+itoa(w), pos
+						case sized && kb != w:
+							bad, badPos = "reflect."+k+" occupies "+itoa(kb)+" byte(s) but is tested with OP_is_zero_"+itoa(w)+": an `omitempty` field of that kind is taken for empty (or non-empty) by looking at the wrong number of bytes", pos
+						}
+					}
+				}
+				if bad != "" {
+					c.Bad(cn, badPos, "%s", bad)
+				} else {
+					c.OK(cn, cc.Pos(), "zero test width matches the kind(s)")
+				}
+				return true
+			})
+		}
+	}
+	if n == 0 {
+		c.Undecided("zero-width", token.NoPos, "no kind clause with an OP_is_zero_N found")
+	}
+}
